@@ -25,6 +25,13 @@ pub(crate) trait ToFileTime {
 
 impl ToFileTime for Timestamp {
     fn to_file_time(&self) -> FileTime {
-        FileTime::from_unix_time(self.as_second(), self.subsec_nanosecond().cast_unsigned())
+        // FileTime wants seconds rounded down and a non-negative fraction.
+        let mut secs = self.as_second();
+        let mut nanos = self.subsec_nanosecond();
+        if nanos < 0 {
+            secs -= 1;
+            nanos += 1_000_000_000;
+        }
+        FileTime::from_unix_time(secs, nanos.cast_unsigned())
     }
 }
